@@ -195,7 +195,7 @@ def _dead_result(kind, detail):
     return {'status': kind, 'detail': detail, 'states': 0, 'transitions': 0, 'validated': 0, 'nontrivial': False, 'outcome': None}
 
 
-def run_pool(name, items, results, budget, scratch_root, jobs, maxtasks=None, deadline=None):
+def run_pool(name, items, results, budget, scratch_root, jobs, maxtasks=None, deadline=None, prior=None):
     import collections
     from multiprocessing.connection import wait
     ctx = multiprocessing.get_context('fork')
@@ -206,7 +206,7 @@ def run_pool(name, items, results, budget, scratch_root, jobs, maxtasks=None, de
         p = ctx.Process(target=_worker_main, args=(b, name, scratch_root, budget), daemon=True)
         p.start()
         b.close()
-        return {'proc': p, 'conn': a, 'idx': None, 't0': None, 'done': 0}
+        return {'proc': p, 'conn': a, 'idx': None, 't0': None, 'done': 0, 'hist': []}
 
     pending = collections.deque(range(len(items)))
     workers = [spawn() for _ in range(jobs)]
@@ -223,6 +223,9 @@ def run_pool(name, items, results, budget, scratch_root, jobs, maxtasks=None, de
                 if w['idx'] is None and pending:
                     i = pending.popleft()
                     w['idx'], w['t0'] = i, time.time()
+                    if prior is not None:
+                        prior[i] = list(w['hist'])
+                    w['hist'].append(i)
                     w['conn'].send((i, items[i]))
             busy = [w for w in workers if w['idx'] is not None]
             ready = wait([w['conn'] for w in busy], timeout=2.0)
@@ -270,15 +273,17 @@ def run_pool(name, items, results, budget, scratch_root, jobs, maxtasks=None, de
                 w['proc'].kill()
 
 
-def run_isolated(name, item, budget):
-    """One item in a forked child (used by --replay so that a library call that kills the process is still a verdict)."""
-    results = [None]
+def run_isolated(name, item, budget, history=()):
+    """One item in a forked child (used by --replay so that a library call that kills the process is still a verdict);
+    `history`: items executed before it in the SAME process (a violation that needs state left behind by earlier work)."""
+    seq = list(history) + [item]
+    results = [None] * len(seq)
     scratch_root = tempfile.mkdtemp(prefix='vt_replay_')
     try:
-        run_pool(name, [item], results, budget, scratch_root, 1)
+        run_pool(name, seq, results, budget, scratch_root, 1)
     finally:
         shutil.rmtree(scratch_root, ignore_errors=True)
-    return results[0]
+    return results[-1]
 
 
 # ---------------------------------------------------------------------------------------------
@@ -330,6 +335,7 @@ def run_check(name, tier, seed, jobs=None, max_replays=12, limit=None, triage=Fa
     budget = budget_of(mod, tier)
     scratch_root = tempfile.mkdtemp(prefix='vt_%s_' % prop)
     results = [None] * len(items)
+    prior = {}
     jobs = jobs or int(os.environ.get('VERIF_JOBS', '0')) or min(16, os.cpu_count() or 1)
     try:
         if jobs == 1 and os.environ.get('VERIF_INPROCESS'):
@@ -339,7 +345,7 @@ def run_check(name, tier, seed, jobs=None, max_replays=12, limit=None, triage=Fa
             os.chdir(ROOT)
         else:
             run_pool(name, items, results, budget, scratch_root, min(jobs, max(1, len(items))),
-                     getattr(mod, 'MAXTASKS', None), deadline=(t0 + wall) if wall else None)
+                     getattr(mod, 'MAXTASKS', None), deadline=(t0 + wall) if wall else None, prior=prior)
     finally:
         shutil.rmtree(scratch_root, ignore_errors=True)
 
@@ -418,6 +424,19 @@ def run_check(name, tier, seed, jobs=None, max_replays=12, limit=None, triage=Fa
         path = write_replay(prop, name, it, v, tier, seed, len(lst))
         written += 1
         confirmed = confirm_replay(name, path) if it is not None and not getattr(mod, 'NO_REPLAY_CONFIRM', False) else True
+        if not confirmed:
+            # not reproducible from a fresh process: does it need state left behind by the items the same worker ran before?
+            # replay the shortest suffix (1, 2, 4, ... items) of that worker's history in one fresh process, then the item
+            idx = next((i for i, x in enumerate(items) if x is it), None)
+            hist = prior.get(idx) or []
+            k = 1
+            while hist and not confirmed:
+                take = hist[-k:]
+                path = write_replay(prop, name, it, v, tier, seed, len(lst), history=[items[j] for j in take])
+                confirmed = confirm_replay(name, path)
+                if k >= len(hist):
+                    break
+                k = min(len(hist), k * 2)
         if confirmed:
             viol_lines.append('VIOLATION property=%s replay=%s' % (prop, path))
         else:
@@ -476,11 +495,15 @@ def run_check(name, tier, seed, jobs=None, max_replays=12, limit=None, triage=Fa
     return 0
 
 
-def write_replay(prop, name, item, v, tier, seed, n_same):
+def write_replay(prop, name, item, v, tier, seed, n_same, history=None):
     d = REPLAYS / prop
     d.mkdir(parents=True, exist_ok=True)
     rec = {'property': prop, 'check': name, 'item': item, 'violation': v, 'tier': tier, 'seed': seed,
            'items_with_same_signature': n_same}
+    if history:
+        rec['history'] = history
+        rec['note'] = ('history-dependent: the violation shows only after the listed items were executed in the same process '
+                       '(state left behind by earlier library calls)')
     path = d / ('%s.json' % digest({'item': item, 'sig': v['sig']}))
     path.write_text(json.dumps(rec, indent=1, default=str) + '\n')
     return str(path)
@@ -490,15 +513,18 @@ def confirm_replay(name, path):
     """Re-execute the violating item in a fresh process; True if it violates again."""
     env = dict(os.environ)
     env['PYTHONHASHSEED'] = '0'
-    p = subprocess.run([PY, '-m', 'vt.check', name, '--replay', path, '--no-line'], cwd=str(ROOT), env=env,
-                       stdout=subprocess.PIPE, stderr=subprocess.PIPE, timeout=900)
+    try:
+        p = subprocess.run([PY, '-m', 'vt.check', name, '--replay', path, '--no-line'], cwd=str(ROOT), env=env,
+                           stdout=subprocess.PIPE, stderr=subprocess.PIPE, timeout=900)
+    except subprocess.TimeoutExpired:
+        return False
     return p.returncode == 1
 
 
 def replay(name, path, print_line=True):
     mod = load_check(name)
     rec = json.loads(Path(path).read_text())
-    res = run_isolated(name, rec['item'], max(60, 5 * budget_of(mod, rec.get('tier', 'quick'))))
+    res = run_isolated(name, rec['item'], max(60, 5 * budget_of(mod, rec.get('tier', 'quick'))), rec.get('history') or ())
     if res['status'] == 'crash' and getattr(mod, 'CRASH_IS_VIOLATION', False):
         res['status'] = 'violation'
         sigf = getattr(mod, 'crash_sig', None)
